@@ -412,13 +412,17 @@ func c01r3(p *Program, r *Report) {
 	nrf := 0
 	ast.Inspect(fi.Decl.Body, func(n ast.Node) bool {
 		c, ok := n.(*ast.CallExpr)
-		if !ok || !isCallTo(info, c, "(*framer).readFrame") || len(c.Args) != 2 {
+		if !ok {
+			return true
+		}
+		hdr, _, isRead := p.frameReadCall(info, c)
+		if !isRead {
 			return true
 		}
 		nrf++
-		u, isAddr := ast.Unparen(c.Args[1]).(*ast.UnaryExpr)
+		u, isAddr := ast.Unparen(hdr).(*ast.UnaryExpr)
 		r.Check(isAddr && u.Op == token.AND && isIdentOf(info, u.X, headObj), c, "(*Conn).recv readFrame header argument",
-			"the frame body is read for the header of this invocation", "readFrame is given "+exprStr(c.Args[1])+" instead of the address of this invocation's header")
+			"the frame body is read for the header of this invocation", "readFrame is given "+exprStr(hdr)+" instead of the address of this invocation's header")
 		return true
 	})
 	if nrf == 0 {
@@ -451,6 +455,16 @@ func c01r3(p *Program, r *Report) {
 					if ok && isCallTo(info, c, "(*framer).readFrame") {
 						if rx := recvExpr(c); rx != nil && isIdentOf(info, rx, fobj) && c.Pos() < s.Pos() {
 							okFramer = true
+						}
+					}
+					// the framer is the first result of a helper that made it and read this header's body into it
+					if as, isA := m.(*ast.AssignStmt); isA && len(as.Rhs) == 1 && len(as.Lhs) >= 1 && as.Pos() < s.Pos() {
+						if hc, isC := ast.Unparen(as.Rhs[0]).(*ast.CallExpr); isC && isIdentOf(info, as.Lhs[0], fobj) {
+							if hdr, via, isRead := p.frameReadCall(info, hc); isRead && via {
+								if u, isAddr := ast.Unparen(hdr).(*ast.UnaryExpr); isAddr && u.Op == token.AND && isIdentOf(info, u.X, headObj) {
+									okFramer = true
+								}
+							}
 						}
 					}
 					return true
@@ -695,8 +709,10 @@ func c01r4(p *Program, r *Report) {
 			}
 			readBefore := false
 			ast.Inspect(rf.Decl.Body, func(m ast.Node) bool {
-				if rc, ok := m.(*ast.CallExpr); ok && isCallTo(rinfo, rc, "(*framer).readFrame") && rc.Pos() < c.Pos() {
-					readBefore = true
+				if rc, ok := m.(*ast.CallExpr); ok && rc.Pos() < c.Pos() {
+					if _, _, isRead := p.frameReadCall(rinfo, rc); isRead {
+						readBefore = true
+					}
 				}
 				return true
 			})
@@ -1074,6 +1090,9 @@ func c01r9(p *Program, r *Report) {
 		if isCallTo(info, c, "newFramer") {
 			fresh = true
 		}
+		if _, via, isRead := p.frameReadCall(info, c); isRead && via {
+			fresh = true
+		}
 	}
 	if !bad {
 		r.Check(fresh, fi.Decl, "(*Conn).recv builds a fresh framer per response and installs no connection-owned storage into it", "newFramer per frame; no framer slice field assigned from/to the Conn", "recv does not create a framer per response")
@@ -1134,4 +1153,45 @@ func c01r11(p *Program, r *Report) {
 	if n == 0 {
 		r.OK(fi.Decl, "(*Conn).Read does not retry partial reads", "no ReadFull inside a loop")
 	}
+}
+
+// frameReadCall: c reads a frame body for a header: a direct (*framer).readFrame(r, hdr), or a private helper of the
+// package that passes its header parameter on to readFrame on a framer it makes itself (newFramer) and returns that
+// framer. Returns the header argument at c and whether the framer is the helper's first result (fresh per call).
+func (p *Program) frameReadCall(info *types.Info, c *ast.CallExpr) (hdr ast.Expr, viaHelper bool, ok bool) {
+	if isCallTo(info, c, "(*framer).readFrame") && len(c.Args) == 2 {
+		return c.Args[1], false, true
+	}
+	fn := calleeOf(info, c)
+	if fn == nil || fn.Exported() {
+		return nil, false, false
+	}
+	h := p.FuncOf(fn)
+	if h == nil || h.Decl.Body == nil || h.Pkg != p.Root {
+		return nil, false, false
+	}
+	hinfo := h.Pkg.TypesInfo
+	makes := false
+	var inner *ast.CallExpr
+	for _, hc := range callsIn(h.Decl.Body) {
+		if isCallTo(hinfo, hc, "newFramer") {
+			makes = true
+		}
+		if isCallTo(hinfo, hc, "(*framer).readFrame") && len(hc.Args) == 2 {
+			inner = hc
+		}
+	}
+	if !makes || inner == nil {
+		return nil, false, false
+	}
+	sig, _ := fn.Type().(*types.Signature)
+	if sig == nil || sig.Results().Len() == 0 || typeNameOf(sig.Results().At(0).Type()) != "framer" {
+		return nil, false, false
+	}
+	for i, a := range c.Args {
+		if po := paramObj(hinfo, h.Decl.Type, i); po != nil && isIdentOf(hinfo, inner.Args[1], po) {
+			return a, true, true
+		}
+	}
+	return nil, false, false
 }
